@@ -686,12 +686,7 @@ def optional_tails(F, R):
                       (r'^v5::codec::packet::pubacks::PublishAck::decode$', 'PublishAck::decode'),
                       (r'^v5::codec::packet::pubacks::PublishAck2::decode$', 'PublishAck2::decode')):
         b = F.one(pat)
-        guards = []
-        for bi, t in b.calls_to(r'::has_remaining$'):
-            ap = apath(b, t['args'][0]) or ('',)
-            r = call_bool_branch(b, bi)
-            if ap[0] == 'arg1' and len(ap) == 1 and r and r[0] != 'discr':
-                guards.append((r[0], r[1]))
+        guards = nonempty_edges(b, lambda t_: (apath(b, t_['args'][0]) or ('',)) == ('arg1',))
         cons = [(bi, t) for bi, t in b.calls_to(CONSUME) if t['args'] and (apath(b, t['args'][0]) or ('',)) == ('arg1',)]
         cons_blocks = {bi for bi, t in cons}
         def guarded(site):
